@@ -39,9 +39,10 @@ META = {
 
 
 def obligations(repo):
-    obs = N.native_obligations("C01", part="agree")
+    obs = N.native_obligations("C01", part="agree", strings=True)
     for o in obs:
         name = o["defines"]["VERIF_TMPL"]
-        o["functions"] = o["functions"] + ["VM half: C02.vm.%s" % VM_HALF[name]]
+        if name in VM_HALF:
+            o["functions"] = o["functions"] + ["VM half: C02.vm.%s" % VM_HALF[name]]
     obs += A.tmpl_obligations("C01", part="agree.acc")
     return obs
